@@ -167,6 +167,12 @@ fn one_item_only(ctx: &mut Ctx, ty: Ty, b: &[u8], tagged: bool) {
     }
     if !tagged {
         api_agreement(ctx, ty, b);
+        if ty.tag().is_some() {
+            // the untagged encoding offered to the tagged entry point, through both layers
+            tagged_agreement(ctx, ty, b);
+        }
+    } else {
+        tagged_agreement(ctx, ty, b);
     }
     // the accepted input behind a tag head (every width): both layers must still say the same
     if b.len() <= 4096 {
